@@ -78,7 +78,10 @@ Definition fexp (x : Z) : Z :=
   let n := (x + LN2 / 2) / LN2 in                (* nearest multiple of ln 2 *)
   let r := x - n * LN2 in
   let e := exp_series 26 1 ONE ONE r in
-  if 0 <=? n then Z.shiftl e n else Z.shiftr e (- n).
+  (* n < -200: the shifted value is exactly 0 (e < 2^82), computed without iterating the shift;
+     n > 2^14: far beyond the float64 overflow threshold (the implementation's value is inf and is not compared) *)
+  if n <? -200 then 0
+  else if 0 <=? n then Z.shiftl e (Z.min n 16384) else Z.shiftr e (- n).
 
 (* atanh series: sum z^(2k+1)/(2k+1) *)
 Fixpoint atanh_series (n : nat) (k : Z) (pw acc z2 : Z) : Z :=
